@@ -25,6 +25,32 @@ class Param:
     optional: bool = False
     keyword_only: bool = False
     kind: str = "normal"  # normal | varargs | kwargs
+    rust_type: str = ""
+
+    @property
+    def accepts(self):
+        """Syntactic kinds of Python values pyo3 can extract into this parameter: a set drawn from
+        {'str', 'seq', 'int', 'float', 'bool', 'none', 'dict'}, or None when anything goes (Py<PyAny>, Bound<PyAny>, unknown)."""
+        t = self.rust_type.replace(" ", "")
+        acc = set()
+        if t.startswith("Option<"):
+            acc.add("none")
+            t = t[len("Option<"):-1]
+        if t in ("String", "&str", "PyBackedStr"):
+            acc.add("str")
+        elif t in ("bool",):
+            acc.add("bool")
+        elif t in ("usize", "u8", "u16", "u32", "u64", "i8", "i16", "i32", "i64", "isize"):
+            acc |= {"int", "bool"}
+        elif t in ("f32", "f64"):
+            acc |= {"float", "int", "bool"}
+        elif t.startswith("Vec<") or t.startswith("("):
+            acc.add("seq")
+        elif t.startswith("HashMap<") or t.startswith("BTreeMap<"):
+            acc.add("dict")
+        else:
+            return None
+        return acc
 
 
 @dataclass
@@ -170,7 +196,8 @@ def _fn_params(text):
         kind = "normal"
         if re.match(r"&?\s*Bound\s*<\s*'\w+\s*,\s*PyTuple\s*>", ty) and name in ("args", "py_args"):
             kind = "varargs"
-        out.append(Param(name, optional=ty.startswith("Option<"), kind=kind))
+        # pyo3 >= 0.23 (the crate pins 0.29): an `Option<T>` parameter is REQUIRED unless a #[pyo3(signature)] gives it a default
+        out.append(Param(name, optional=False, kind=kind, rust_type=ty))
     return out
 
 
@@ -238,6 +265,10 @@ def _callable(name, src, fn_pos, file, line_of):
             p0 = inner.index("(", k)
             p1 = _match(inner, p0, "(", ")")
             sig = _sig_params(inner[p0 + 1:p1 - 1])
+    if sig is not None:
+        types = {p.name: p.rust_type for p in params}
+        for p in sig:
+            p.rust_type = types.get(p.name, "")
     c = Callable_(name, sig if sig is not None else params, file, line_of(fn_pos), from_signature=sig is not None)
     if sig is not None:
         # the signature must name exactly the function's Python-supplied parameters
